@@ -116,7 +116,7 @@ package pullapi
 //@   ensures [C04:store_failure_is_503] result1 != nil ==> result1.StatusCode == 503
 
 //@ func (*Server).handleDequeue
-//@   requires s != nil && r != nil && w != nil
+//@   requires s != nil && r != nil
 //@   modifies *
 //@   loop 1 invariant [encoded_so_far] rangeindex < len(outcome.Items) && len(out.Items) == rangeindex + 1 && forall k int :: 0 <= k && k < len(out.Items) ==> out.Items[k].PayloadB64 == b64Of(outcome.Items[k].Payload) && out.Items[k].Headers == outcome.Items[k].Headers && out.Items[k].ID == outcome.Items[k].ID && out.Items[k].LeaseID == outcome.Items[k].LeaseID && out.Items[k].Attempt == outcome.Items[k].Attempt && out.Items[k].Route == outcome.Items[k].Route
 //@   calls encoding/json.(*Encoder).Encode requires [C07:response_carries_every_item_with_base64_of_its_stored_payload_and_its_stored_headers] len(out.Items) == len(outcome.Items) && outcome.Items == lastDequeued && forall k int :: 0 <= k && k < len(out.Items) ==> out.Items[k].PayloadB64 == b64Of(lastDequeued[k].Payload) && out.Items[k].Headers == lastDequeued[k].Headers && out.Items[k].ID == lastDequeued[k].ID && out.Items[k].LeaseID == lastDequeued[k].LeaseID
